@@ -7,6 +7,7 @@ From SV Require Import Lib.Base Gen.Consts.
 From SV Require Import Model.PollAt Proofs.PollAtProofs.
 From SV Require Import Model.Seq32 Model.Assembler Model.TcpBuf Model.TcpTypes Model.Tcp.
 From SV Require Import Proofs.TcpSendBase Proofs.TcpLiveBase Proofs.TcpLiveProofs Proofs.TcpLiveMore.
+From SV Require Import Proofs.TcpLiveProgress.
 
 (* [tcp_live_inv] is an inductive invariant: it holds for every freshly created socket ... *)
 Theorem C02_inv_initial : forall rx tx cc ts s,
@@ -120,3 +121,57 @@ Theorem C02_example_zero_window :
                tcp_poll_at (ex_cx 2000) s = Ok (Tcp.PTime 1000000).
 Proof. exact example_zero_window. Qed.
 Print Assumptions C02_example_zero_window.
+
+(* ---------------------------------------------------------------------------------------------
+   Liveness half: PARTIAL.  Three bounded-progress lemmas; what is missing is their composition
+   with a network that eventually delivers and a peer that behaves as the same model (a two-socket
+   temporal theorem "every accepted octet is eventually delivered, every close completes"): that
+   composed statement is only searched by the two-endpoint simulation oracle (checks/C02.json).
+   --------------------------------------------------------------------------------------------- *)
+
+(* (a) the wait is bounded: for every socket reachable with a non-negative, non-decreasing clock,
+   if something is unacknowledged then poll_at is Now or an instant at most RTTE_MAX_RTO (60 s) after
+   the time of the last event.  The bound is the generated constant: max_rto_us = RTTE_MAX_RTO * 1000. *)
+Theorem C02_progress_deadline_bounded_partial : forall now cx s p,
+  tcp_reachable_at now s -> tcp_need s -> tcp_poll_at cx s = Ok p ->
+  p = Tcp.PNow \/ exists t, p = Tcp.PTime t /\ t <= now + tcp_RTTE_MAX_RTO * 1000.
+Proof. exact deadline_bounded. Qed.
+Print Assumptions C02_progress_deadline_bounded_partial.
+
+(* (b) at the deadline the retransmission happens: retransmission timer due, device accepts the
+   frame, no user timeout, remote window not closed, MTU with room for payload => the dispatch
+   sends a segment that starts at SND.UNA and occupies sequence space (oldest unacknowledged octets,
+   SYN or FIN) and re-arms the timer with a deadline in (now, now + RTTE_MAX_RTO]. *)
+Theorem C02_progress_rto_retransmits_partial : forall cx s e s' res tags,
+  tcp_live_inv s -> tcp_need s ->
+  s_timer s = TRetransmit e -> e <= cx_now cx ->
+  s_timeout s = None ->
+  (forall t, s_tuple s = Some t -> tu_local_addr t = cx_addr cx) ->
+  (0 < rb_len (s_tx_buffer s) -> s_remote_win_len s <> 0) ->
+  mss_ok cx s ->
+  tcp_dispatch cx s true = Ok (s', res, tags) ->
+  exists ip repr,
+    res = DSent (ip, repr) /\
+    r_seq_number repr = s_local_seq_no s /\ 0 < repr_segment_len repr /\
+    (exists e', s_timer s' = TRetransmit e' /\
+                cx_now cx < e' <= cx_now cx + tcp_RTTE_MAX_RTO * 1000) /\
+    s_local_seq_no s' = s_local_seq_no s /\ s_state s' = s_state s.
+Proof. exact rto_retransmits. Qed.
+Print Assumptions C02_progress_rto_retransmits_partial.
+
+(* (c) an acknowledgement that is accepted (the segment runs through all seven phases of process)
+   moves SND.UNA exactly to the acknowledged number, which is never behind the old SND.UNA. *)
+Theorem C02_progress_snd_una_follows_ack_partial : forall cx s ip r s' reply tags a,
+  ctx_ok cx -> seg_ok r -> tcp_live_inv s ->
+  tcp_process cx s ip r = Ok (s', reply, tags) ->
+  length tags = 7%nat -> r_ack_number r = Some a ->
+  s_local_seq_no s' = a /\
+  (a = s_local_seq_no s \/ seq_lt (s_local_seq_no s) a = true).
+Proof. exact snd_una_follows_ack. Qed.
+Print Assumptions C02_progress_snd_una_follows_ack_partial.
+
+(* non-vacuity of (b): on the first example, a poll at the timer's deadline re-sends the three
+   octets from SND.UNA = 1001 and re-arms the timer with the doubled timeout *)
+Theorem C02_example_rto_step : ex_rto_step = Some (1001, 3, 3, TRetransmit 3002000, 1001).
+Proof. exact example_rto_step. Qed.
+Print Assumptions C02_example_rto_step.
